@@ -42,6 +42,8 @@ type Engine struct {
 	abort        bool
 	known        []KnownFinding
 	mode         string
+	topVars      map[string]*Val
+	topPkg       *ssa.Package
 }
 
 type KnownFinding struct {
@@ -697,6 +699,13 @@ func (e *Engine) simpleInstr(fr *Frame, st *State, instr ssa.Instruction) (*Val,
 		} else {
 			ref := st.newRef()
 			r.T = fmt.Sprintf("(mkIface %d %s)", tid, ref)
+			// the boxed value can be recovered by contracts (unboxStr / unboxBytes)
+			switch x.S {
+			case sStr:
+				st.assume(eq("(boxval_Str "+ref+")", x.T))
+			case sBytes:
+				st.assume(eq("(boxval_Bytes "+ref+")", x.T))
+			}
 		}
 		return r, nil
 	case *ssa.MakeClosure:
@@ -1167,7 +1176,12 @@ func (e *Engine) execFrom(fr *Frame, st *State, b *ssa.BasicBlock, idx int, k re
 				e.execFrom(fr2, st2, b, i+1, k)
 			})
 			return
-		case *ssa.Go, *ssa.Select, *ssa.Send, *ssa.Range, *ssa.Next:
+		case *ssa.Go:
+			// The spawned call is treated as not having run when the enclosing function continues/returns:
+			// sound for "must have happened before return" obligations; its later effects are not modelled.
+			e.warnf("%s: go statement at %s: spawned call treated as not yet executed (effects unmodelled)", fr.fn, e.posStr(in.Pos()))
+			continue
+		case *ssa.Select, *ssa.Send, *ssa.Range, *ssa.Next:
 			if r, ok := instr.(*ssa.Range); ok {
 				if v, err := e.rangeInstr(fr, st, r); err == nil {
 					fr.env[r] = v
